@@ -229,3 +229,6 @@ package types
 //@ func NewStringBuffer(buf)
 //@   fresh
 //@   ensures result != nil
+
+// what NewHttpContext establishes (none of these fields is assigned afterwards)
+//@ spec ctxOK(c *HttpContext) bool = c != nil && c.EventEmitter != nil && c.request != nil && c.response != nil && c.headers != nil && c.query != nil && c.ResponseHeaders != nil && c.query != c.headers
